@@ -250,7 +250,25 @@ class HandlerProtocol:
                     out.append(("W", node, field, recv, elementwise, value))
         if isinstance(node, ast.Return):
             out.append(("RETURN", node))
+        if isinstance(node, ast.For) and self._slices_whole_state(node, ctx):
+            out.append(("SLICE_ALL", node))
         return out
+
+    def _state_aliases(self, fn: ast.AST) -> Set[str]:
+        """names whose value is stored as the handler's state in this function (`self.<state> = name`)"""
+        return {n.value.id for n in ast.walk(fn) if isinstance(n, ast.Assign) and len(n.targets) == 1
+                and self_attr(n.targets[0]) == self.roles.state_attr and isinstance(n.value, ast.Name)}
+
+    def _slices_whole_state(self, loop: ast.For, ctx: Ctx) -> bool:
+        """`for c in <state>: self.<slice the subtree of>(c)` written out instead of calling the slice-all routine"""
+        it = loop.iter
+        over_state = self_attr(it) == self.roles.state_attr or (isinstance(it, ast.Name) and it.id in self._state_aliases(ctx.fn.fn))
+        body = [s for s in loop.body if not isinstance(s, (ast.Pass, ast.Assert))]
+        if not over_state or len(body) != 1 or loop.orelse or not isinstance(loop.target, ast.Name):
+            return False
+        c = body[0].value if isinstance(body[0], ast.Expr) else None
+        return isinstance(c, ast.Call) and isinstance(c.func, ast.Attribute) and isinstance(c.func.value, ast.Name) and c.func.value.id == "self" \
+            and c.func.attr in self.roles.subtree_slice and len(c.args) == 1 and norm(c.args[0]) == loop.target.id
 
     def inline(self, call: ast.Call, ctx: Ctx) -> Sequence[FnRef]:
         f = call.func
@@ -449,6 +467,7 @@ class HandlerProtocol:
                     "a sampling / end-of-run out-state must store the active state it is given and time-slice all of it "
                     "to the event time before returning it")
             if isinstance(node, ast.Return):
-                ret_ok = node.value is not None and self_attr(node.value) == self.roles.state_attr
+                ret_ok = node.value is not None and (self_attr(node.value) == self.roles.state_attr or (
+                    isinstance(node.value, ast.Name) and node.value.id in self._state_aliases(ref.fn)))
                 self.ob("R17.1-returns-stored-state", ret_ok, ctx, node,
                         "the out-state returned must be the stored (time-sliced) state")
